@@ -469,9 +469,9 @@ Print Assumptions C13_view_sound.
         ([doc_item]; excludes %s, %Z, the offset items, %+, RFC 2822, and %C %y %g on negative years);
     (2) the text is accepted by [unambiguous_b] (hypothesis, decidable for a given value; the variant
         [unambiguous_ws_b] for space-padded numbers right after white space is not lifted);
-    (3) the field set the reader builds contains a documented sufficient combination with the year
-        given in full or as century + two-digit year ([date_comb_b] / [time_comb_b], decidable; the
-        two-digit year alone, sufficient only for 1970..=2069, is not included);
+    (3) the field set the reader builds contains a documented sufficient combination
+        ([date_comb_b Y IY] / [time_comb_b], decidable): each year group absent or given in full, or as
+        century + two-digit year, or as the two-digit year alone when the (ISO) year is in 1970..=2069;
     (4) all fraction items of the list print the same nanosecond value [on];
     (5) DateTime<FixedOffset> is covered by the family theorem C13_dtz_roundtrip only.
     Result: parsing the formatted text returns the date itself / the time [time_kept p t] made of the
@@ -481,7 +481,7 @@ Theorem C13_general_date_roundtrip_partial : forall y o d items texts ws,
   Proofs.C08Sweeps.repr y o d ->
   Forall2 (doc_item (sv_of_date (Spec.Gregorian.dn_of_yo y o)) None) items texts ->
   unambiguous_b (combine items texts) [] = Some ws ->
-  date_comb_b (apply_ws ws Model.Parsed.parsed_new) = true ->
+  date_comb_b y (fst (Spec.Gregorian.iso_of_dn (Spec.Gregorian.dn_of_yo y o))) (apply_ws ws Model.Parsed.parsed_new) = true ->
   Model.Format.write_items (Model.Format.fa_of_date d) items [] = Model.Format.fok (List.concat texts) /\
   (let+ p := parse Model.Parsed.parsed_new (List.concat texts) items in pr_of (Model.Parsed.to_naive_date p)) = pok d.
 Proof. exact general_date_roundtrip. Qed.
@@ -504,7 +504,8 @@ Theorem C13_general_ndt_roundtrip_partial : forall y o d t on items texts ws,
   Proofs.C08Sweeps.repr y o d -> valid_time t -> (forall n, on = Some n -> 0 <= n <= 999999999) ->
   Forall2 (doc_item (sv_of_ndt (Spec.Gregorian.dn_of_yo y o) t) on) items texts ->
   unambiguous_b (combine items texts) [] = Some ws ->
-  date_comb_b (apply_ws ws Model.Parsed.parsed_new) = true -> time_comb_b (apply_ws ws Model.Parsed.parsed_new) = true ->
+  date_comb_b y (fst (Spec.Gregorian.iso_of_dn (Spec.Gregorian.dn_of_yo y o))) (apply_ws ws Model.Parsed.parsed_new) = true ->
+  time_comb_b (apply_ws ws Model.Parsed.parsed_new) = true ->
   Model.Format.write_items (Model.Format.fa_of_ndt (Model.DateTime.mk_ndt d t)) items [] = Model.Format.fok (List.concat texts) /\
   (let+ p := parse Model.Parsed.parsed_new (List.concat texts) items in
    pr_of (Model.Parsed.to_naive_datetime_with_offset p 0)) =
@@ -531,7 +532,7 @@ Proof. exact general_ndt_check_sound. Qed.
 Print Assumptions C13_general_ndt_check_sound.
 
 (* inhabited: "%A, %d %B %Y %I:%M:%S%.3f %p", a form without seconds, adjacent full-width fields;
-   an unpadded month in front of the day is rejected *)
+   an unpadded month in front of the day is rejected; the two-digit year alone inside / outside the pivot window *)
 Example C13_general_members :
   general_ndt_check (Spec.Gregorian.dn_of_yo 2015 365) (Model.Time.mk_time 86399 987654321) (Some 987000000) ex_general_items = true /\
   general_ndt_check (Spec.Gregorian.dn_of_yo 2015 365) (Model.Time.mk_time 86399 987654321) None
@@ -539,7 +540,11 @@ Example C13_general_members :
   general_ndt_check (Spec.Gregorian.dn_of_yo 2015 365) (Model.Time.mk_time 0 0) None
     [num0 N_Year; num0 N_Month; num0 N_Day; num0 N_Hour; num0 N_Minute] = true /\
   general_ndt_check (Spec.Gregorian.dn_of_yo 2015 36) (Model.Time.mk_time 0 0) None
-    [num0 N_Year; Literal [45]; num N_Month; num0 N_Day; Space [32]; num0 N_Hour; Literal [58]; num0 N_Minute] = false.
+    [num0 N_Year; Literal [45]; num N_Month; num0 N_Day; Space [32]; num0 N_Hour; Literal [58]; num0 N_Minute] = false /\
+  general_ndt_check (Spec.Gregorian.dn_of_yo 2015 36) (Model.Time.mk_time 0 0) None
+    [num0 N_YearMod100; Literal [45]; num0 N_Month; Literal [45]; num0 N_Day; Space [32]; num0 N_Hour; Literal [58]; num0 N_Minute] = true /\
+  general_ndt_check (Spec.Gregorian.dn_of_yo 1969 36) (Model.Time.mk_time 0 0) None
+    [num0 N_YearMod100; Literal [45]; num0 N_Month; Literal [45]; num0 N_Day; Space [32]; num0 N_Hour; Literal [58]; num0 N_Minute] = false.
 Proof. exact ex_general_member. Qed.
 Print Assumptions C13_general_members.
 
